@@ -164,10 +164,14 @@ func (t encTime) goTime() time.Time {
 	}
 	sec, _ := strconv.ParseInt(t.Sec, 10, 64)
 	tm := time.Unix(sec, int64(t.Nsec))
-	if t.Zoff == 0 {
+	if t.Zoff == 0 && t.Zname == "" {
 		return tm.UTC()
 	}
-	return tm.In(time.FixedZone("Z", t.Zoff))
+	name := "Z"
+	if t.Zname != "" {
+		name = string(unhx(t.Zname))
+	}
+	return tm.In(time.FixedZone(name, t.Zoff))
 }
 
 // ---- generator -----------------------------------------------------------------------------------------
@@ -250,6 +254,9 @@ func (g *encGen) timeVal() *encTime {
 	}
 	zoff := Pick(r, []int{0, 0, 0, 3600, -5 * 3600, 19800, 45 * 60, -12 * 3600})
 	et := &encTime{Nanos: strconv.FormatInt(t.UnixNano(), 10), Sec: strconv.FormatInt(t.Unix(), 10), Nsec: t.Nanosecond(), Zoff: zoff}
+	if r.Chance(1, 4) { // zone abbreviations are arbitrary strings and are copied verbatim by the MST layout verb
+		et.Zname = hx(Pick(r, [][]byte{[]byte("CET"), []byte("A\"B"), []byte("x\\y"), []byte("L\nF"), {0xff, 'Z'}, []byte("é"), []byte("\x01")}))
+	}
 	if g.rt.EncodeTime != nil {
 		rec := &subRec{}
 		g.rt.EncodeTime(et.goTime(), rec)
@@ -555,7 +562,7 @@ func (g *encGen) metaKey(def string) string {
 	}
 }
 
-var timeLayouts = []string{"2006-01-02", time.Kitchen, time.RFC1123Z, "", "Jan _2 15:04:05.000", "2006\"01\\02", "15h04m\n", "\t2006\x01", "2006 é €", "\"", "Monday, 02-Jan-06 15:04:05 MST"}
+var timeLayouts = []string{"2006-01-02", time.Kitchen, time.RFC1123Z, time.RFC1123, time.UnixDate, "MST", "15:04 MST", "", "Jan _2 15:04:05.000", "2006\"01\\02", "15h04m\n", "\t2006\x01", "2006 é €", "\"", "Monday, 02-Jan-06 15:04:05 MST"}
 
 func (g *encGen) config(console bool) {
 	r := g.r
@@ -647,7 +654,7 @@ func genEncOps(r *Rand, n int, console bool, hostilePct, faults, depth, maxField
 	for i := 0; i < n; i++ {
 		g := &encGen{r: r, hostile: r.Intn(100) < hostilePct, faults: faults, depth: depth}
 		g.config(console)
-		op := encOp{K: "entry", Console: console, Cfg: g.cfg, Ctx: [][]encField{}}
+		op := encOp{K: "entry", Console: console, Cfg: g.cfg, Ctx: [][]encField{}, Reentrant: r.Chance(1, 5)}
 		op.Ent = g.entry()
 		for j := r.Intn(4); j > 0; j-- {
 			op.Ctx = append(op.Ctx, g.fields(3))
